@@ -18,6 +18,7 @@ package xhttp
 
 import (
 	"fmt"
+	"io"
 	"net/http"
 
 	"github.com/go-netty/go-netty"
@@ -57,8 +58,14 @@ func (h *handlerAdapter) HandleRead(ctx netty.InboundContext, message netty.Mess
 	case *http.Request:
 		// create a response writer
 		writer := NewResponseWriter(r, ctx.Channel().Writer())
-		// flush response
-		defer writer.Flush()
+		// finish the response (an explicit Flush of the handler must not release the writer)
+		defer func() {
+			if c, ok := writer.(io.Closer); ok {
+				_ = c.Close()
+			} else {
+				writer.Flush()
+			}
+		}()
 		// serve the http request
 		h.handler.ServeHTTP(writer, r)
 	default:
